@@ -92,6 +92,8 @@ fn do_lex(src: &str) -> String {
 
 fn do_parse(src: &str) -> String {
     let p = syntax::parse_module(src);
+    // the accessor every consumer uses (SourceFile::cast(..).unwrap()): panics if the tree is not rooted at SOURCE_FILE
+    let _ = p.root();
     let node = p.syntax_node();
     let mut o = String::from("{\"tree\":");
     tree(&node, &mut o);
